@@ -161,26 +161,38 @@ Qed.
 (* ------------------------------------------------------------- parser *)
 
 (* the declarative resolution relation: what an entry stands for, whatever the order of the walk *)
-Inductive Resolves (es : list ohdr) (ext : store) : N -> otype -> bytes -> Prop :=
+Inductive Resolves (es : list ohdr) (ext : store) : N -> otype -> bytes -> N -> Prop :=
 | R_base e : In e es -> is_delta (oh_type e) = false ->
-    Resolves es ext (oh_off e) (oh_type e) (oh_data e)
-| R_ofs e t c tsz out : In e es -> oh_type e = TOfs ->
-    Resolves es ext (oh_base_off e) t c -> apply_delta c (oh_data e) = Some (tsz, out) ->
-    Resolves es ext (oh_off e) t out
-| R_ref e boff t c tsz out : In e es -> oh_type e = TRef ->
-    Resolves es ext boff t c -> obj_id t (blen c) c = oh_base_id e ->
+    Resolves es ext (oh_off e) (oh_type e) (oh_data e) 0
+| R_ofs e t c d tsz out : In e es -> oh_type e = TOfs ->
+    Resolves es ext (oh_base_off e) t c d -> apply_delta c (oh_data e) = Some (tsz, out) ->
+    Resolves es ext (oh_off e) t out (d + 1)
+| R_ref e boff t c d tsz out : In e es -> oh_type e = TRef ->
+    Resolves es ext boff t c d -> obj_id t (blen c) c = oh_base_id e ->
     apply_delta c (oh_data e) = Some (tsz, out) ->
-    Resolves es ext (oh_off e) t out
+    Resolves es ext (oh_off e) t out (d + 1)
 | R_ext e t c tsz out : In e es -> oh_type e = TRef ->
     store_get ext (oh_base_id e) = Some (t, c) ->
     apply_delta c (oh_data e) = Some (tsz, out) ->
-    Resolves es ext (oh_off e) t out.
+    Resolves es ext (oh_off e) t out 1.
 
+(* the depth rule of checkDeltaChainDepth, both paths: exactly "parent depth + 1 <= maxDeltaChainDepth" *)
+Lemma chain_depth_spec pd :
+  chain_depth pd = if pd + 1 <=? MAX_DEPTH then Some (pd + 1) else None.
+Proof.
+  unfold chain_depth. change MAX_DEPTH with 4095.
+  replace (4095 <? 1) with false by reflexivity.
+  destruct (0 <? pd) eqn:E0.
+  - replace (1 + pd) with (pd + 1) by lia. destruct (4095 <? pd + 1) eqn:E1; destruct (pd + 1 <=? 4095) eqn:E2; try reflexivity; lia.
+  - assert (pd = 0) by lia. subst. reflexivity.
+Qed.
+
+(* [r_depth] is the number of delta links between the object and the whole object (or external base) under it *)
 Definition good (es : list ohdr) (ext : store) (o : robj) : Prop :=
   r_id o = obj_id (r_type o) (blen (r_content o)) (r_content o) /\
   r_size o = blen (r_content o) /\
   r_depth o <= MAX_DEPTH /\
-  Resolves es ext (r_off o) (r_type o) (r_content o).
+  Resolves es ext (r_off o) (r_type o) (r_content o) (r_depth o).
 
 Definition pinv (es : list ohdr) (ext : store) (s : pstate) : Prop :=
   Forall (good es ext) (p_oi s) /\
@@ -196,7 +208,7 @@ Proof.
   intros [Ig Ie] Hd Ht. unfold process_delta.
   set (parent := match oh_type d with TOfs => _ | _ => _ end).
   destruct parent as [[[[pt pc] pd] s1]|] eqn:Ep; [|discriminate].
-  destruct (MAX_DEPTH <? pd + 1) eqn:Edp; [discriminate|].
+  rewrite chain_depth_spec. destruct (pd + 1 <=? MAX_DEPTH) eqn:Edp; [|discriminate].
   destruct (oh_data d) as [|x dd] eqn:Edata; [discriminate|]. rewrite <- Edata.
   destruct (apply_delta pc (oh_data d)) as [[tsz out]|] eqn:Ea; [|discriminate].
   intros E; inversion E; subst; clear E.
@@ -205,9 +217,9 @@ Proof.
   assert (Hp : (Forall (good es ext) (p_oi s1) /\
                (forall id v, store_get (p_ext s1) id = Some v -> store_get ext id = Some v)) /\
                pd <= MAX_DEPTH /\
-               ((oh_type d = TOfs /\ Resolves es ext (oh_base_off d) pt pc) \/
-                (oh_type d = TRef /\ exists boff, Resolves es ext boff pt pc /\ obj_id pt (blen pc) pc = oh_base_id d) \/
-                (oh_type d = TRef /\ store_get ext (oh_base_id d) = Some (pt, pc)))).
+               ((oh_type d = TOfs /\ Resolves es ext (oh_base_off d) pt pc pd) \/
+                (oh_type d = TRef /\ exists boff, Resolves es ext boff pt pc pd /\ obj_id pt (blen pc) pc = oh_base_id d) \/
+                (oh_type d = TRef /\ pd = 0 /\ store_get ext (oh_base_id d) = Some (pt, pc)))).
   { unfold parent in Ep. destruct (oh_type d) eqn:Et; try discriminate.
     - (* OFS *)
       destruct (by_offset s (oh_base_off d)) as [p|] eqn:Eo; [|discriminate]. inversion Ep; subst.
@@ -223,23 +235,23 @@ Proof.
         exists (r_off p). split; [exact G4|]. apply bytes_eqb_eq in Hid. now rewrite <- G1.
       + destruct (store_get (p_ext s) (oh_base_id d)) as [[t c]|] eqn:E1.
         * inversion Ep; subst. split; [split; assumption|]. split; [unfold MAX_DEPTH; cbn; lia|].
-          right. right. split; [reflexivity|]. now apply Ie.
+          right. right. split; [reflexivity|]. split; [reflexivity|]. now apply Ie.
         * destruct (store_get ext (oh_base_id d)) as [[t c]|] eqn:E2; [|discriminate].
           inversion Ep; subst. cbn [p_oi p_ext].
           split; [split; [assumption|]|].
           -- intros id v. cbn [store_get]. destruct (bytes_eqb (oh_base_id d) id) eqn:Eb.
              ++ apply bytes_eqb_eq in Eb. subst id. intros Hv; inversion Hv; subst. exact E2.
              ++ apply Ie.
-          -- split; [unfold MAX_DEPTH; cbn; lia|]. right. right. split; [reflexivity|first [exact E2|reflexivity]]. }
+          -- split; [unfold MAX_DEPTH; cbn; lia|]. right. right. split; [reflexivity|]. split; [reflexivity|first [exact E2|reflexivity]]. }
   destruct Hp as ((Ig1 & Ie1) & Hpd & Hres).
   split; cbn [p_oi p_ext]; [|exact Ie1].
   constructor; [|exact Ig1].
   unfold good. cbn [r_id r_type r_content r_size r_depth r_off].
   rewrite Hlen. repeat split; try reflexivity; [lia|].
-  destruct Hres as [[Et R]|[[Et (boff & R & Hid)]|[Et Hs]]].
+  destruct Hres as [[Et R]|[[Et (boff & R & Hid)]|[Et [E0 Hs]]]].
   - eapply R_ofs; eauto.
   - eapply R_ref; eauto.
-  - eapply R_ext; eauto.
+  - subst pd. change (0 + 1) with 1. eapply R_ext; eauto.
 Qed.
 
 (* process_delta marks the entry done and adds one object at its offset *)
@@ -326,7 +338,7 @@ Theorem parse_sound ext pack objs sum :
   forall o, In o objs ->
     r_id o = obj_id (r_type o) (blen (r_content o)) (r_content o) /\
     r_size o = blen (r_content o) /\ r_depth o <= MAX_DEPTH /\
-    Resolves es ext (r_off o) (r_type o) (r_content o).
+    Resolves es ext (r_off o) (r_type o) (r_content o) (r_depth o).
 Proof.
   unfold parse. destruct (scan_pack hs Hsz inflate crc32 pack) as [[es sm]|] eqn:Es; [|discriminate].
   destruct (resolve hs Hsz ext es) as [s|] eqn:Er; [|discriminate].
